@@ -42,6 +42,7 @@ type NodeConn struct {
 	Data    bool // carried at least one data command or handshake
 	Admin   bool // carried INFO/PING (refresher / monitor connections)
 	rest    []byte
+	restEv  *Event // the "answer" event of the reply whose second half is in rest
 	NRecv   int
 }
 
@@ -80,6 +81,7 @@ type Cluster struct {
 	TopoText func() string
 	tagMu    sync.Mutex
 	slotTag  []string
+	altTag   map[int]string
 	RawTopo  []byte // when non-nil, sent verbatim as the reply to CLUSTER NODES (unusable replies)
 	Writing  int32  // background writes of large replies still in progress
 	// Boot: CLUSTER NODES is auto-answered even when cfg.ScriptTopo (used during bootstrap)
@@ -246,8 +248,52 @@ func (cl *Cluster) TagForSlot(n int) string {
 	return cl.slotTag[n]
 }
 
-// TagOfName resolves an abstract slot name: a letter name from the dictionary, or "#n" for slot number n.
+// altTagFor returns another hash tag of slot n, one that contains bytes >= 0x80 (valid UTF-8 for even slots, not
+// valid UTF-8 for odd ones): keys built on it live in the same slot as keys built on the ordinary tag.
+func (cl *Cluster) altTagFor(n int) string {
+	cl.tagMu.Lock()
+	defer cl.tagMu.Unlock()
+	if cl.altTag == nil {
+		cl.altTag = map[int]string{}
+	}
+	if t, ok := cl.altTag[n]; ok {
+		return t
+	}
+	pre := "\xc3\xa9"
+	if n%2 == 1 {
+		pre = "\xff\x80"
+	}
+	for i := 0; i < 5000000; i++ {
+		tag := pre + strconv.Itoa(i)
+		if respx.KeySlot([]byte("{"+tag+"}")) == n {
+			cl.altTag[n] = tag
+			return tag
+		}
+	}
+	return ""
+}
+
+// CanonSlot strips the alias mark from an abstract slot name.
+func CanonSlot(name string) string { return strings.TrimSuffix(name, "~") }
+
+// TagOfName resolves an abstract slot name: a letter name from the dictionary, or "#n" for slot number n; "X~" is
+// the same slot as "X" reached through another hash tag (one with bytes outside ASCII).
 func (cl *Cluster) TagOfName(name string) string {
+	if strings.HasSuffix(name, "~") {
+		base := CanonSlot(name)
+		baseTag := cl.TagOfName(base)
+		cl.mu.Lock()
+		num, ok := cl.SlotNum[base]
+		cl.mu.Unlock()
+		if !ok {
+			num = respx.KeySlot([]byte("{" + baseTag + "}"))
+		}
+		tag := cl.altTagFor(num)
+		cl.mu.Lock()
+		cl.SlotOf[tag] = base
+		cl.mu.Unlock()
+		return tag
+	}
 	if strings.HasPrefix(name, "#") {
 		n, _ := strconv.Atoi(name[1:])
 		tag := cl.TagForSlot(n % 16384)
@@ -714,6 +760,11 @@ func (cl *Cluster) Answer(name, kind, cls, to string, raw []byte, part string) b
 	if part == "rest" {
 		for _, nc := range n.Conns {
 			if !nc.Closed && !nc.PeerEOF && nc.rest != nil {
+				// the reply is complete only now: this is when the node has answered
+				if nc.restEv != nil {
+					cl.log.Add(*nc.restEv)
+					nc.restEv = nil
+				}
 				nc.c.Write(nc.rest)
 				nc.rest = nil
 				cl.log.Add(Event{Ev: "answerrest", N: n.Name, Conn: nc.Id})
@@ -741,6 +792,8 @@ func (cl *Cluster) Answer(name, kind, cls, to string, raw []byte, part string) b
 		cl.log.Add(Event{Ev: "answerhead", N: n.Name, Conn: nc.Id, Fid: pc.Fid, Kind: kind, Cls: cls, To: to, C: tokC(pc), I: tokI(pc)})
 		nc.c.Write(b[:h])
 		nc.rest = b[h:]
+		ev := cl.answerEvent(nc, pc, b, kind, cls, to)
+		nc.restEv = &ev
 		return true
 	}
 	cl.answerLocked(nc, kind, cls, to, raw)
@@ -767,6 +820,23 @@ func (cl *Cluster) answerLocked(nc *NodeConn, kind, cls, to string, raw []byte) 
 	if b == nil {
 		b = cl.replyFor(nc.node, pc, kind, cls, to)
 	}
+	// log before write: the answer happens-before anything the proxy does with it
+	cl.log.Add(cl.answerEvent(nc, pc, b, kind, cls, to))
+	if len(b) > 60000 {
+		// more than the socket buffers may take while the proxy is parked: write in the background
+		atomic.AddInt32(&cl.Writing, 1)
+		go func() {
+			nc.c.Write(b)
+			atomic.AddInt32(&cl.Writing, -1)
+		}()
+		return
+	}
+	nc.c.Write(b)
+	cl.autoLocked(nc, false)
+}
+
+// answerEvent describes the reply b of node connection nc to command pc: what the node says about each key.
+func (cl *Cluster) answerEvent(nc *NodeConn, pc *PCmd, b []byte, kind, cls, to string) Event {
 	ev := Event{Ev: "answer", N: nc.node.Name, Conn: nc.Id, Fid: pc.Fid, Kind: kind, Cls: cls, To: to, K: pc.Name, C: tokC(pc), I: tokI(pc), Size: len(b)}
 	// what the node said about each key of the command, as the merge oracle needs it
 	if r, _, ok, _ := respx.ParseReply(b); ok {
@@ -803,19 +873,7 @@ func (cl *Cluster) answerLocked(nc *NodeConn, kind, cls, to string, raw []byte) 
 			ev.Raw = fmt.Sprintf("sha256:%x:%d", sha256.Sum256(b), len(b))
 		}
 	}
-	// log before write: the answer happens-before anything the proxy does with it
-	cl.log.Add(ev)
-	if len(b) > 60000 {
-		// more than the socket buffers may take while the proxy is parked: write in the background
-		atomic.AddInt32(&cl.Writing, 1)
-		go func() {
-			nc.c.Write(b)
-			atomic.AddInt32(&cl.Writing, -1)
-		}()
-		return
-	}
-	nc.c.Write(b)
-	cl.autoLocked(nc, false)
+	return ev
 }
 
 // CloseConns closes (from the node side) every open data connection of the node.
